@@ -245,6 +245,7 @@ def run_check(pid: str, tier: str, master: int, jobs: int, runs: int | None,
                 more = False
         results.sort(key=lambda r: r["idx"])
 
+        if os.environ.get("LADSIM_DEBUG"): print("PHASE main_done", round(time.time()-t0,1), flush=True)
         # determinism sample: re-execute a few cases in another worker
         sample = [r for r in results if not r.get("harness_error")][:: max(1, len(results) // 12)][:12]
         futs = {pool.submit(run_case, pid, master, r["idx"], tier): r for r in sample}
@@ -262,6 +263,7 @@ def run_check(pid: str, tier: str, master: int, jobs: int, runs: int | None,
                 harness_errors.append(f"case {r['idx']} seed_i={r['seed_i']}: {r['harness_error']}")
 
         # ---- violations: group by tag, minimise one representative per tag
+        if os.environ.get("LADSIM_DEBUG"): print("PHASE determinism_done", round(time.time()-t0,1), flush=True)
         # every single violation is matched against the listed known findings first (by its own
         # tag, call site / situation and the features of its case); only the rest is minimised and reported
         by_tag: dict[str, list[dict]] = {}
@@ -300,6 +302,7 @@ def run_check(pid: str, tier: str, master: int, jobs: int, runs: int | None,
                 harness_errors.append(f"shrink lost the violation {tag} case {r['idx']}")
                 continue
             reports.append({"tag": tag, "case": r, "min": sh, "count": len(by_tag[tag])})
+        if os.environ.get("LADSIM_DEBUG"): print("PHASE shrink_done", round(time.time()-t0,1), flush=True)
         # replay each minimised scenario once more in another process
         futs = {pool.submit(exec_scenario, pid, rep["min"]["scenario"]): rep for rep in reports}
         for fut, rep in futs.items():
